@@ -172,7 +172,7 @@ class Walker:
         if isinstance(v, InstanceDict):
             return ("idict", self.visit(v.obj, path, lambda x: None))
         if isinstance(v, Source):
-            return ("src", v.name, v.state, v.ended)
+            return ("src", getattr(v, "generic", None) or v.name, v.state, v.ended)
         if isinstance(v, GenObj):
             n, new = self.oid(v)
             return ("gen", n, v.fn.name, v.state)
@@ -605,7 +605,12 @@ class Verifier:
         modname, qual = spec
         v = prog.module(modname).lookup(qual.split(".")[0])
         for part in qual.split(".")[1:]:
+            owner = v
             v = v.lookup(part) if isinstance(v, ClassVal) else getattr(v, part)
+            if isinstance(v, ClassMethod):
+                v = BoundMethod(owner, v.fn)
+            elif isinstance(v, StaticMethod):
+                v = v.fn
         return v
 
     # ---------------------------------------------------------------
@@ -802,6 +807,11 @@ class Verifier:
                 job.opts["at_suspension"](self, ctx, ev)       # the source may suspend: other tasks run here
             opts = ["item", "end"] + (list(fk) if faults else [])
             c = opts[ctx.choose(len(opts), f"pull {src.name}")]
+            if c == "item" and getattr(src, "item_kind", None) == "source":
+                inner = env.source(f"{src.name}.{src.pulls}", has_aclose=True, kind=src.kind)
+                inner.generic = f"{src.name}.*"         # all iterables handed out by this source look alike in state shapes
+                self.trace.append((f"pull {src.name}", f"item <iterable {inner.name}>"))
+                return ("item", inner)
             if c == "item":
                 v = Opaque(ctx.fresh(Val, f"{src.name}{src.pulls}_"))
                 if job.opts.get("ghost_tee") and "ghost" in self.impl_i.roots:
@@ -1348,7 +1358,7 @@ class Verifier:
     def state_key(self, impl_i, ref_i, node_site, erase):
         w = Walker(erase_lists=erase)
         frames = w.visit_frames([impl_i, ref_i])
-        srcs = tuple(sorted((s.name, s.state, s.ended) for s in self.env.sources.values()))
+        srcs = tuple(sorted(set((getattr(s, "generic", None) or s.name, s.state, s.ended) for s in self.env.sources.values())))
         pr = self.pending_ref
         def setp(x, pr=pr):
             pr.payload = x
@@ -1543,7 +1553,10 @@ class Verifier:
         if fn is None:
             return True
         ok = True
-        for name, f in fn(self):
+        for clause in fn(self):
+            name, f = clause[0], clause[1]
+            if len(clause) > 2 and clause[2] == "lemma":
+                continue        # an arithmetic theorem supplied as a fact (proved once as its own obligation)
             ok &= bool(self.prove(ctx, f"{self.job.name}/inv-declared/{where}/{name}", "inv-declared", f,
                                   detail=f"declared invariant `{name}` does not hold {where}"))
         return ok
@@ -1552,7 +1565,8 @@ class Verifier:
         fn = self.job.opts.get("state_invariant")
         if fn is None:
             return
-        for name, f in fn(self):
+        for clause in fn(self):
+            f = clause[1]
             if f is False:
                 raise Infeasible()
             if f is not True:
@@ -1560,7 +1574,7 @@ class Verifier:
 
     def cut_arrive(self, ctx, key, w):
         """arrival at a cut point owned by another path: the invariant must hold here (init), nothing else"""
-        if not self.check_state_invariant(ctx, key, "on arrival at the consumer loop"):
+        if not self.check_state_invariant(ctx, key, "at the cut point"):
             raise PathEnd()
         terms = {s.path: s.get() for s in w.slots}
         cands = self.cands.get(key)
@@ -1591,7 +1605,7 @@ class Verifier:
             self.result.record(f"{self.job.name}/inv-init/L{key[0][0]}", "inv-init", True)
 
     def cut_enter(self, ctx, key, w, replay=False):
-        if not replay and not self.check_state_invariant(ctx, key, "on arrival at the consumer loop"):
+        if not replay and not self.check_state_invariant(ctx, key, "at the cut point"):
             raise PathEnd()
         slots = w.slots
         terms = {s.path: s.get() for s in slots}
@@ -1639,7 +1653,7 @@ class Verifier:
             self.result.invariants[f"L{key[0][0]}#{len(self.result.invariants)}"] = sorted(cands)
 
     def cut_step(self, ctx, key, w):
-        self.check_state_invariant(ctx, key, "on arrival at the consumer loop")
+        self.check_state_invariant(ctx, key, "at the cut point")
         terms = {s.path: s.get() for s in w.slots}
         entry = self.open_cuts[key]
         cands = self.cands[key]
